@@ -102,7 +102,7 @@ func NewCtx(p *Prog, r *Report, tier string) *Ctx {
 		c.userIface, _ = tn.Type().Underlying().(*types.Interface)
 	}
 	if c.userIface == nil {
-		HardFail("anchor type authboss.User not found")
+		AnchorFail("anchor type authboss.User not found")
 	}
 	for name, m := range root.Members {
 		if nc, ok := m.(*ssa.NamedConst); ok && strings.HasPrefix(name, "Event") {
@@ -114,7 +114,7 @@ func NewCtx(p *Prog, r *Report, tier string) *Ctx {
 	}
 	for _, need := range []string{"EventAuth", "EventAuthHijack", "EventAuthFail", "EventOAuth2", "EventRegister", "EventRecoverEnd", "EventLogout"} {
 		if _, ok := c.ev[need]; !ok {
-			HardFail("anchor constant authboss.%s not found", need)
+			AnchorFail("anchor constant authboss.%s not found", need)
 		}
 	}
 	// static callers
